@@ -195,7 +195,9 @@ pub fn handle_mix(rng: &mut Rng, sess: &Session, max_handles: usize) -> Vec<Step
             let p = rng.pick(&idx.streams).clone();
             let names = crate::model::normalise(&p).unwrap();
             if sess.handle_on(&names).is_none() {
-                return vec![Step::HOpen { slot: sess.free_slot(), path: p, how: crate::engine::OpenHow::Open }];
+                // a third of the long-lived handles are opened under a letter-case variant
+                let path = if rng.chance(1, 3) { crate::model::join(&names.iter().map(|n| crate::gen::case_variant(rng, n)).collect::<Vec<_>>()) } else { p };
+                return vec![Step::HOpen { slot: sess.free_slot(), path, how: crate::engine::OpenHow::Open }];
             }
         }
     }
@@ -204,7 +206,8 @@ pub fn handle_mix(rng: &mut Rng, sess: &Session, max_handles: usize) -> Vec<Step
     }
     let slot = *rng.pick(&open);
     if rng.chance(1, 12) {
-        return vec![Step::HClose { slot }];
+        // flush-and-drop, or just drop (Drop writes the buffer back)
+        return vec![if rng.chance(1, 2) { Step::HClose { slot } } else { Step::HDrop { slot } }];
     }
     let hcfg = HCfg { max_len: 20000, extreme_seeks: true, set_len_pct: 5, raw_rw: true, cap_hint: 1024 };
     vec![handle_step(rng, sess, slot, &hcfg)]
@@ -658,6 +661,11 @@ pub fn run_c03(ctx: &Ctx, rep: &mut Report) {
             continue;
         }
         let version = version_of(rng);
+        if rng.chance(1, 20) {
+            seesaw_case(ctx, case, rng, version, rep);
+            rep.evaluations += 1;
+            continue;
+        }
         let max_steps = if ctx.quick() { rng.range(10, 90) } else { rng.range(20, 300) } as usize;
         let mut cfg = GenCfg::default();
         cfg.refusal_pct = 10;
@@ -675,6 +683,73 @@ pub fn run_c03(ctx: &Ctx, rep: &mut Report) {
         }
         rep.evaluations += 1;
     }
+}
+
+/// A regular stream that grows and shrinks by single sectors while other chains are begun
+/// and extended in between (first small stream of the file, streams of exactly one
+/// sector / 4096 bytes, new directory sectors): every order of "extend A", "cut A back",
+/// "begin another chain", "extend A again"; the image is judged after every step.
+fn seesaw_case(ctx: &Ctx, case: u64, rng: &mut Rng, version: Version, rep: &mut Report) {
+    use crate::engine::OpenHow;
+    let sl: u64 = if version == Version::V3 { 512 } else { 4096 };
+    let mut done: Vec<Step> = Vec::new();
+    let res = guard::catch(|| -> Result<(), Fail> {
+        let mut sess = Session::create(version, None).map_err(|e| ("create | ok | err".to_string(), format!("{e}")))?;
+        let mut run = |sess: &mut Session, step: Step, done: &mut Vec<Step>, rep: &mut Report| -> Result<(), Fail> {
+            done.push(step.clone());
+            if let Some(d) = sess.run(&step) {
+                return Err((format!("harness-or-C01: {}", d.signature), format!("{}: expected {}, observed {}", d.step, d.expected, d.observed)));
+            }
+            check_image(&sess.shared.bytes(), rep).map(|_| ()).map_err(|(s, d)| (s, format!("after {:?}: {}", step, d)))
+        };
+        let mut len = sl * rng.range(9, 14) + *rng.pick(&[0u64, 1, 100]);
+        run(&mut sess, Step::HOpen { slot: 0, path: "/A".into(), how: OpenHow::Create }, &mut done, rep)?;
+        run(&mut sess, Step::HWriteAll { slot: 0, len: len as usize }, &mut done, rep)?;
+        run(&mut sess, Step::HFlush { slot: 0 }, &mut done, rep)?;
+        let rounds = rng.range(4, 9);
+        for r in 0..rounds {
+            for _ in 0..rng.range(1, 3) {
+                match rng.below(4) {
+                    0 => len += sl,
+                    1 => len = len.saturating_sub(sl).max(4096),
+                    2 => len += 2 * sl + rng.below(3),
+                    _ => len = (len / sl) * sl + *rng.pick(&[0u64, 1, sl - 1]),
+                }
+                len = len.max(4096);
+                run(&mut sess, Step::HSetLen { slot: 0, n: len }, &mut done, rep)?;
+            }
+            // another chain is begun (or the directory / MiniFAT / mini stream extended)
+            let p = format!("/n{r}");
+            let size = match (r, rng.below(3)) {
+                (0, _) => 100,
+                (_, 0) => 4096,
+                (_, 1) => sl as usize,
+                _ => *rng.pick(&[64usize, 700, 4097, 9000]),
+            };
+            run(&mut sess, Step::HOpen { slot: 1, path: p.clone(), how: OpenHow::Create }, &mut done, rep)?;
+            run(&mut sess, Step::HWriteAll { slot: 1, len: size }, &mut done, rep)?;
+            run(&mut sess, Step::HClose { slot: 1 }, &mut done, rep)?;
+            if rng.chance(1, 3) {
+                run(&mut sess, Step::Api(Op::RemoveStream(p)), &mut done, rep)?;
+            }
+        }
+        run(&mut sess, Step::HClose { slot: 0 }, &mut done, rep)?;
+        sess.check_against_model(false).map_err(|w| ("harness-or-C01: dump | model | mismatch".to_string(), w))?;
+        Ok(())
+    });
+    let witness = ctx.witness(case, vec![("version", J::s(vname(version))), ("steps", steps_json(&done))]);
+    match res {
+        Ok(Ok(())) => rep.count("seesaw_cases"),
+        Ok(Err((sig, detail))) if sig.starts_with("harness-or-C01") => {
+            rep.count("abandoned_model_divergence");
+            rep.set_insert("abandoned_signatures", sig);
+            let _ = detail;
+        }
+        Ok(Err((sig, detail))) => rep.finding(sig, detail, witness),
+        Err(p) => rep.finding(p.signature(), format!("panic at {}:{}: {}", p.file, p.line, p.message), witness),
+    }
+    rep.add("steps", done.len() as u64);
+    rep.nontrivial(crate::rng::fnv64(format!("{:?}", done).as_bytes()));
 }
 
 /// Large images: several FAT sectors, DIFAT sectors, many directory and MiniFAT sectors;
